@@ -197,7 +197,10 @@ type Env struct {
 	Dials    int
 	Accepted []*Conn // upstream ends of dialled connections
 	FailDial bool
-	UpAddr   net.Addr
+	// FailAddrs: dials to these addresses are refused; DialLog lists every address dialled, in order
+	FailAddrs map[string]bool
+	DialLog   []string
+	UpAddr    net.Addr
 	// EOFWithData is applied to the proxy side of dialled connections
 	EOFWithData bool
 }
@@ -205,7 +208,8 @@ type Env struct {
 func (e *Env) Dial(network, addr string) (net.Conn, error) {
 	vsched.PointL("dial")
 	e.Dials++
-	if e.FailDial {
+	e.DialLog = append(e.DialLog, addr)
+	if e.FailDial || e.FailAddrs[addr] {
 		return nil, &net.OpError{Op: "dial", Net: network, Err: errors.New("connection refused")}
 	}
 	up := e.UpAddr
